@@ -4,6 +4,9 @@ import json, os
 HERE = os.path.dirname(os.path.dirname(os.path.abspath(__file__)))
 props = [json.loads(l) for l in open(os.path.join(HERE, "properties.jsonl"))]
 CLAIMED = {
+ "C01": dict(module="Validate", design="5 C01", technique="TLA+ spec Validate (Accepts operator over 23 Parameter types x constraint configurations x candidate values) + TLC invariants; every (type, configuration) verdict table replayed through six routes on real Parameters",
+   text="The specification states, per Parameter type and constraint configuration, which candidate values are accepted; TLC enumerates the whole product and checks StoredValid, Boundary (boundary accepted iff inclusive), NaNOutside, NoneIffAllowed on it. Every table is replayed: each candidate is tried through class declaration, constructor, instance attribute, class attribute, param.update and (where expressible in JSON) deserialization, comparing accept/reject, exception class (ValueError/TypeError), read-back, and that a rejected attempt leaves the previous value.",
+   note="Exhaustive over the enumerated space (exhaustive:true); the space is finite by construction (bounds from a small set, candidates at/inside/outside each bound, Fraction/Decimal/NaN/inf, wrong kinds). Documented or ambiguous inputs are outside the domain and listed in the evidence assumptions."),
  "C03": dict(module="ParamCore", design="5 C03", technique="TLA+ spec ParamCore + TLC exhaustive invariants; TLC-generated behaviours (exhaustive + simulate) replayed step-by-step on real param objects",
    text="TLC checks delivery-order / exactly-once / depth-first / queued-deferral invariants on the dispatcher specification over all programs of <=3-4 operations with arbitrary callback programs; every behaviour TLC generates (exhaustive to 2-3 ops over the property's alphabet, thousands of random ones to 6 ops, plus the equality domain) is replayed on the real code with callbacks scripted by the behaviour, comparing watcher identity, event name/old/new/type and the object's values at every callback entry and after every operation.",
    note="Small-scope hypothesis (2 parameters, <=3 watchers from 5 configurations, value tokens); trusted: TLC, CPython, the token<->value mapping in harness/drivers/paramcore.py. Slot watchers and class-level dispatch are covered by C12/C13 modules, not here."),
